@@ -73,7 +73,7 @@ func sum(xs []int) int {
 
 // ---------------------------------------------------------------------------------------------- area wf
 // wf <old> <umask> <mode> <pieces> <fault> <cbmode>
-//    fault: none | cb:<j> | rename:DIR (old must be "dir") | write:<k>:EFBIG (write(2) number k fails: RLIMIT_FSIZE is
+//    fault: none | cb:<j> | panic:<j> (the callback panics after j pieces) | rename:DIR (old must be "dir") | write:<k>:EFBIG (write(2) number k fails: RLIMIT_FSIZE is
 //    set to the size the temporary file has when that call starts, SIGXFSZ ignored);  cbmode: p | s | k
 // -> res=<code> dst=<state> extra=<n> mid=<i:size,…|-> reader=<ok|BAD:…>
 type wfArea struct{}
@@ -88,6 +88,8 @@ func (wfArea) Gen(r *hx.Rng, n int, _ string, emit func(string)) {
 			fault = "cb:" + strconv.Itoa(r.Intn(len(parsePieces(pieces))+1))
 		case 2:
 			old, fault = "dir", "rename:DIR"
+		case 5:
+			fault = "panic:" + strconv.Itoa(r.Intn(len(parsePieces(pieces))+1))
 		case 3, 4:
 			if nw := len(chunkSizes("wf", parsePieces(pieces))); nw > 0 {
 				fault = "write:" + strconv.Itoa(r.Intn(nw+r.Intn(2))) + ":EFBIG"
@@ -114,6 +116,10 @@ func (wfArea) Run(line string) string {
 	cbFail := -1
 	if strings.HasPrefix(fault, "cb:") {
 		cbFail = atoi(fault[3:])
+	}
+	if strings.HasPrefix(fault, "panic:") { // the callback panics; the panic is recovered here, outside the call
+		cbFail = atoi(fault[6:])
+		cbMode += "!"
 	}
 	rd := startReader(dst, oldState, newState)
 	var mid []string
@@ -149,7 +155,14 @@ func (wfArea) Run(line string) string {
 			restore = limitFileSize(uint64(sum(cs[:k])))
 		}
 	}
-	err := perform("wf", dst, mode, pieces, cbFail, cbMode, after)
+	err := func() (err error) {
+		defer func() {
+			if r := recover(); r != nil {
+				err = errPanicked
+			}
+		}()
+		return perform("wf", dst, mode, pieces, cbFail, cbMode, after)
+	}()
 	restore()
 	rs := rd.finish()
 	m := "-"
